@@ -572,6 +572,7 @@ def coq_text(s):
 
 
 def run(ctx):
+    C.config_matrix(ctx["report"], ctx["rundir"], "C11", ["1" * 1500 + " % 7", "0d" + "1" * 1500 + " % 7", "0x" + "F" * 1300 + " % 255", "1e-5 + 0", "1.5e300 * 0", "1..5", "0b102", "\"abc", "#2024", "12 500", "3 m\u00a0s"])
     rep, tier, seed = ctx["report"], ctx["tier"], ctx["seed"]
     import time
     T0 = time.time()
